@@ -4,6 +4,12 @@ NOTES = ("All checks: bin/check <ID> --tier quick|thorough. Exit 0 held / 1 VIOL
          "Specification in spec/, harness in harness/, known findings in known_findings.jsonl; see DESIGN.md.")
 NOT_APPLICABLE = {}
 CHECKS = {
+    "C20": {
+        "level": "model_checking",
+        "technique": "TLA+ Cli machine (Start/OpenOutput/ReadInput/Compile/WriteOut/PrintErr) checked by TLC for 'no CSS on failure / CSS in exactly one place on success' and run for every flag vector x input class (MC_Cli); the real binary built from /repo is executed for each, the library is called in-process with the same options as oracle; TLC trace machine Trace_Cli judges exit status, stdout, output file and stderr",
+        "text": "Exhaustive over style x --no-charset x --quiet x --no-unicode x 0/1/2 load paths x file/--stdin x stdout/output file (192 vectors) x 8 input classes (valid, with warnings, non-ASCII, needing a load path, parse error, evaluation error, missing input, uncreatable output): stdout or the output file must hold exactly the library's bytes, failures must exit non-zero with the rendered error on stderr and no CSS anywhere, warnings only on stderr.",
+        "note": "One or two concrete inputs per class; the output file may be left empty (truncated) by a failed run, which the property allows.",
+    },
     "C02": {
         "level": "model_checking",
         "technique": "TLA+ History spec (threads, per-thread histories, Finish admits only canon[j]); TLC enumerates single-thread histories over a prior-job alphabet and multi-thread schedules (MC_History); the harness executes them for real (prior jobs on the same fresh OS thread, barrier-released threads, fresh processes for canon and hash-seed variation); every start/finish event validated by TLC (Trace_History), with the known identifier-order deviation judged by a separate normalised fingerprint",
